@@ -431,10 +431,13 @@ func vRunTrigCase(c *vCase, prop string) {
 	allowEMT := prop == "C01"
 	mode := "plain"
 	if allowEMT {
-		mode = vPick(r, "plain", "plain", "plain", "emt", "group", "group")
+		mode = vPick(r, "plain", "plain", "plain", "emt", "group", "group", "emtgroup")
+		if mode == "emtgroup" && nchan < 2 {
+			nchan = 2 + r.Intn(3)
+		}
 	}
 	tr := &vTrigRun{c: c, nchan: nchan, npre: npre, nsamp: nsamp, period: period, fixed: true, cuts: map[FrameIndex]bool{}}
-	if mode == "emt" {
+	if mode == "emt" || mode == "emtgroup" {
 		if npre < 4 {
 			npre = 4
 		}
@@ -464,6 +467,24 @@ func vRunTrigCase(c *vCase, prop string) {
 			}
 			return set
 		}
+		if mode == "emtgroup" {
+			// an edge-multi source channel feeding receivers that use the ordinary triggers (or none)
+			for {
+				s, ok := vGenEMT(r, tr.npre, tr.nsamp)
+				if ok && s.ts.EMTState.mode != EMTRecordsVariableLength {
+					set[0] = s
+					break
+				}
+			}
+			for ch := 1; ch < nchan; ch++ {
+				if vChance(r, 0.5) {
+					set[ch] = vGenTrigSetting(r, signed[ch], period, tr.nsamp)
+				} else {
+					set[ch] = vTrigSetting{desc: "none"}
+				}
+			}
+			return set
+		}
 		shared := vChance(r, 0.5)
 		for ch := range set {
 			if ch == 0 || !shared {
@@ -480,7 +501,7 @@ func vRunTrigCase(c *vCase, prop string) {
 	// epoch 0: restored from configuration, or applied through ChangeTriggerState before the first block
 	set0 := genSet()
 	how0 := vPick(r, "restored", "configured")
-	if mode == "emt" {
+	if mode == "emt" || mode == "emtgroup" {
 		how0 = "configured" // edge-multi is documented as not restored
 	}
 	var restored []FullTriggerState
@@ -527,6 +548,14 @@ func vRunTrigCase(c *vCase, prop string) {
 			c.Inconclusive("setup", "ChangeTriggerState rejected a valid setting: %v", err)
 			return
 		}
+	}
+	if mode == "emtgroup" {
+		tr.groups = true
+		conns := map[int][]int{0: {}}
+		for rx := 1; rx < nchan; rx++ {
+			conns[0] = append(conns[0], rx)
+		}
+		f.ds.ChangeGroupTrigger(true, &GroupTriggerState{Connections: conns})
 	}
 	if mode == "group" {
 		tr.groups = true
@@ -575,7 +604,7 @@ func vRunTrigCase(c *vCase, prop string) {
 			case "len-change":
 				for {
 					ne.npre, ne.nsamp = vGenLengths(r)
-					if mode == "emt" && (ne.npre < 4 || ne.nsamp-ne.npre < 6) {
+					if (mode == "emt" || mode == "emtgroup") && (ne.npre < 4 || ne.nsamp-ne.npre < 6) {
 						continue
 					}
 					if ne.npre != cur.npre || ne.nsamp != cur.nsamp {
